@@ -721,9 +721,11 @@ class Gen(object):
             if q < 0.8:
                 return hi + r.randint(1, 3)
             return lo - r.randint(1, 3)
-        if sh and r.random() < 0.7:
+        if sh and r.random() < 0.7 and o.n_word <= 62:
             n = int(np.prod(sh))
             spec = ['a', 'int64', list(sh), [[code(), 0] for _ in range(n)]]
+        elif sh and len(sh) == 1 and r.random() < 0.7:
+            spec = ['l', [['i', code()] for _ in range(sh[0])]]
         else:
             spec = ['i', code()]
         return {'op': 'set_raw', 'slot': self.cands().index(i), 'val': spec}
